@@ -963,7 +963,7 @@ Qed.
 
 Definition args_ok (o : op) : Prop :=
   match o with
-  | OSetMtu m => (N.of_nat m < 65536)%N
+  | OSetMtu m | OSrvMtu m => (N.of_nat m < 65536)%N
   | ORead h | OReadLong h => (h < 65536)%N
   | OReadBlob h off => (h < 65536)%N /\ (N.of_nat off < 65536)%N
   | OWrite h v | OWriteLong h v | OWriteCmd h v => (h < 65536)%N /\ (N.of_nat (length v) < 65536)%N
@@ -980,25 +980,26 @@ Proof. intros -> [H1 H2 _ _] H3 H4. constructor; cbn; auto. Qed.
 
 Lemma run_op_usable o c s mtu :
   clean c s mtu -> sinv s -> args_ok o -> cmd_not_refused o s ->
-  exists out c' s' mtu', run_op o c s = (out, c', s') /\ usable out /\ clean c' s' mtu' /\ sinv s'.
+  exists out c' s', run_op o c s = (out, c', s') /\ usable out /\ clean c' s' (next_mtu o mtu) /\ sinv s'.
 Proof.
   intros Hcl Hs Ha Hn. pose proof Hcl as [Hl Hq Hw Hc Hm1 Hm2 Hm].
-  destruct o as [m | h | h off | h | h v | h v | h v]; cbn [run_op args_ok cmd_not_refused] in *.
+  destruct o as [m | h | h off | h | h v | h v | h v | m]; cbn [run_op args_ok cmd_not_refused next_mtu] in *.
   - (* set_mtu *)
     destruct (Nat.le_gt_cases 23 m) as [H23|H23].
     + destruct (set_mtu_spec c s mtu m Hcl H23 Ha) as (c' & s' & He & Hcl' & Hdb).
-      exists (Ok (VNat m)), c', s', m.
+      replace (23 <=? m) with true by (symmetry; apply Nat.leb_le; lia).
+      exists (Ok (VNat m)), c', s'.
       split; [exact He|]. split; [exact I|]. split; [exact Hcl'|].
       destruct Hcl'. destruct Hs. constructor; auto; rewrite Hdb; auto.
     + destruct c as [m0 cm q l]. cbn in Hl, Hq, Hm1. subst l q m0.
-      exists (Ok VNone), (mkc mtu cm [] false), s, mtu.
+      exists (Ok VNone), (mkc mtu cm [] false), s.
       unfold client_set_mtu, proclock, set_lock. cbn [c_locked c_mtu c_cmtu c_q].
       replace (23 <=? m) with false by (symmetry; apply Nat.leb_gt; lia).
       cbn [releases]. split; [reflexivity|]. split; [exact I|]. split; [exact Hcl|exact Hs].
   - (* read *)
     destruct c as [m0 cm q l]. cbn in Hl, Hq, Hm1. subst l q m0.
     exists (ask_outcome acc_read (fun m => match m with RRead v => Ok (VBytes v) | _ => Raise EOther end)
-                        (snd (server_step s (QRead h)))), (mkc mtu cm [] false), s, mtu.
+                        (snd (server_step s (QRead h)))), (mkc mtu cm [] false), s.
     assert (Hu : usable (ask_outcome acc_read (fun m => match m with RRead v => Ok (VBytes v) | _ => Raise EOther end)
                         (snd (server_step s (QRead h))))) by (apply ask_outcome_usable, good_read).
     split; [|auto]. unfold client_read. apply proclock_usable; [|exact Hu].
@@ -1007,7 +1008,7 @@ Proof.
     destruct Ha as [Hh Ho].
     destruct c as [m0 cm q l]. cbn in Hl, Hq, Hm1. subst l q m0.
     exists (ask_outcome acc_blob (fun m => match m with RBlob v => Ok (VBytes v) | _ => Raise EOther end)
-                        (snd (server_step s (QBlob h off)))), (mkc mtu cm [] false), s, mtu.
+                        (snd (server_step s (QBlob h off)))), (mkc mtu cm [] false), s.
     assert (Hu : usable (ask_outcome acc_blob (fun m => match m with RBlob v => Ok (VBytes v) | _ => Raise EOther end)
                         (snd (server_step s (QBlob h off))))) by (apply ask_outcome_usable, good_blob).
     split; [|auto]. unfold client_read_blob. apply proclock_usable; [|exact Hu].
@@ -1015,20 +1016,20 @@ Proof.
     now rewrite srv_blob_state.
   - (* read_long *)
     destruct (read_long_usable c s mtu h Hcl Hs Ha) as (o & Ho & Hu).
-    exists o, c, s, mtu. auto.
+    exists o, c, s. auto.
   - (* write *)
     destruct Ha as [Hh Hv].
     destruct c as [m0 cm q l]. cbn in Hl, Hq, Hm1. subst l q m0.
     change {| c_mtu := mtu; c_cmtu := cm; c_q := []; c_locked := false |} with (mkc mtu cm [] false).
     destruct (mtu - 3 <? length v) eqn:E.
     + destruct (write_long_nolock_usable h v mtu cm s Hs Hm Hh Hv) as (o & s' & Ho & Hu & Hs' & Hmtu).
-      exists o, (mkc mtu cm [] false), s', mtu. split; [|split; [exact Hu|split; [|exact Hs']]].
+      exists o, (mkc mtu cm [] false), s'. split; [|split; [exact Hu|split; [|exact Hs']]].
       * unfold client_write. apply proclock_usable; [|exact Hu]. cbn [mkc c_mtu]. rewrite E. exact Ho.
       * apply clean_intro; auto. congruence.
     + destruct (srv_write_state s h v Hs Hv) as [Hs' Hmtu].
       exists (ask_outcome acc_write (fun m => match m with RWrite => Ok VTrue | _ => Raise EOther end)
                           (snd (server_step s (QWrite h v)))), (mkc mtu cm [] false),
-             (fst (server_step s (QWrite h v))), mtu.
+             (fst (server_step s (QWrite h v))).
       assert (Hu : usable (ask_outcome acc_write (fun m => match m with RWrite => Ok VTrue | _ => Raise EOther end)
                           (snd (server_step s (QWrite h v))))) by (apply ask_outcome_usable, good_write).
       split; [|split; [exact Hu|split; [|exact Hs']]].
@@ -1041,7 +1042,7 @@ Proof.
     destruct c as [m0 cm q l]. cbn in Hl, Hq, Hm1. subst l q m0.
     change {| c_mtu := mtu; c_cmtu := cm; c_q := []; c_locked := false |} with (mkc mtu cm [] false).
     destruct (write_long_nolock_usable h v mtu cm s Hs Hm Hh Hv) as (o & s' & Ho & Hu & Hs' & Hmtu).
-    exists o, (mkc mtu cm [] false), s', mtu. split; [|split; [exact Hu|split; [|exact Hs']]].
+    exists o, (mkc mtu cm [] false), s'. split; [|split; [exact Hu|split; [|exact Hs']]].
     + unfold client_write_long. apply proclock_usable; [exact Ho|exact Hu].
     + apply clean_intro; auto. congruence.
   - (* write_command *)
@@ -1049,12 +1050,20 @@ Proof.
     destruct c as [m0 cm q l]. cbn in Hl, Hq, Hm1. subst l q m0.
     change {| c_mtu := mtu; c_cmtu := cm; c_q := []; c_locked := false |} with (mkc mtu cm [] false).
     destruct (srv_write_cmd_state s h v Hs Hv) as [Hs' Hmtu].
-    exists (Ok VTrue), (mkc mtu cm [] false), (fst (server_step s (QWriteCmd h v))), mtu.
+    exists (Ok VTrue), (mkc mtu cm [] false), (fst (server_step s (QWriteCmd h v))).
     split; [|split; [exact I|split; [|exact Hs']]].
     + unfold client_write_command. apply proclock_usable; [|exact I].
       unfold xfer. cbn [encodable]. rewrite fits16_N by assumption.
       destruct (server_step s (QWriteCmd h v)) as [s1 r]. cbn [snd fst] in *. subst r. reflexivity.
     + apply clean_intro; auto. congruence.
+  - (* MTU exchange initiated by the server *)
+    destruct c as [m0 cm q l]. cbn in Hl, Hq, Hm1. subst l q m0.
+    unfold server_set_mtu. cbn [c_cmtu c_q c_locked]. rewrite fits16_nat by assumption.
+    destruct (23 <=? m) eqn:E.
+    + apply Nat.leb_le in E.
+      eexists _, _, _. split; [reflexivity|]. split; [exact I|]. destruct Hs as [S1 S2 S3 S4].
+      split; constructor; cbn; auto.
+    + eexists _, _, _. split; [reflexivity|]. split; [exact I|]. split; [exact Hcl|exact Hs].
 Qed.
 
 Fixpoint no_refused_cmd (ops : list op) (c : client) (s : server) : Prop :=
@@ -1065,16 +1074,16 @@ Fixpoint no_refused_cmd (ops : list op) (c : client) (s : server) : Prop :=
 
 Lemma run_ops_usable ops : forall c s mtu,
   clean c s mtu -> sinv s -> Forall args_ok ops -> no_refused_cmd ops c s ->
-  exists outs c' s' mtu', run_ops ops c s = (outs, c', s') /\ Forall usable outs
-                          /\ clean c' s' mtu' /\ sinv s'.
+  exists outs c' s', run_ops ops c s = (outs, c', s') /\ Forall usable outs
+                     /\ clean c' s' (mtu_after ops mtu) /\ sinv s'.
 Proof.
-  induction ops as [|o r IH]; intros c s mtu Hcl Hs Ha Hn; cbn [run_ops].
-  - exists [], c, s, mtu. auto.
+  induction ops as [|o r IH]; intros c s mtu Hcl Hs Ha Hn; cbn [run_ops mtu_after fold_left].
+  - exists [], c, s. auto.
   - inversion Ha as [|? ? Ha1 Ha2]; subst. destruct Hn as [Hn1 Hn2].
-    destruct (run_op_usable o c s mtu Hcl Hs Ha1 Hn1) as (out & c1 & s1 & mtu1 & He & Hu & Hcl1 & Hs1).
+    destruct (run_op_usable o c s mtu Hcl Hs Ha1 Hn1) as (out & c1 & s1 & He & Hu & Hcl1 & Hs1).
     rewrite He in Hn2 |- *.
-    destruct (IH c1 s1 mtu1 Hcl1 Hs1 Ha2 Hn2) as (outs & c2 & s2 & mtu2 & He2 & Hu2 & Hcl2 & Hs2).
-    rewrite He2. exists (out :: outs), c2, s2, mtu2. auto.
+    destruct (IH c1 s1 _ Hcl1 Hs1 Ha2 Hn2) as (outs & c2 & s2 & He2 & Hu2 & Hcl2 & Hs2).
+    rewrite He2. exists (out :: outs), c2, s2. auto.
 Qed.
 
 (** ** stale Error Responses of refused commands *)
@@ -1178,6 +1187,7 @@ Definition waits (o : op) : bool :=
   match o with
   | OSetMtu m => 23 <=? m
   | OWriteCmd _ _ => false
+  | OSrvMtu _ => false
   | _ => true
   end.
 
@@ -1195,7 +1205,7 @@ Proof.
             proclock body (mkc mtu cm q false) s = proclock body (mkc mtu cm [] false) s).
   { intros body Hb. unfold proclock, set_lock, mkc. cbn [c_locked c_mtu c_cmtu c_q].
     unfold mkc in Hb. rewrite Hb. reflexivity. }
-  destruct o as [m | h | h off | h | h v | h v | h v]; cbn [run_op args_ok waits] in *.
+  destruct o as [m | h | h off | h | h v | h v | h v | m]; cbn [run_op args_ok waits] in *.
   - (* set_mtu *)
     unfold client_set_mtu. apply Hproc. rewrite Hw.
     pose proof (xfer_wait_flush acc_mtu (QMtu m) mtu cm q true s Hq) as H.
@@ -1216,6 +1226,7 @@ Proof.
     + now apply write_long_nolock_flush.
     + apply ask_flush; [assumption|]. cbn [encodable]. now apply fits16_N.
   - destruct Ha as [Hh Hv]. unfold client_write_long. apply Hproc. now apply write_long_nolock_flush.
+  - discriminate.
   - discriminate.
 Qed.
 
@@ -1242,7 +1253,7 @@ Qed.
 (** any procedure from a ready state: usable outcome, ready state again *)
 Lemma run_op_ready o c s mtu :
   ready c s mtu -> sinv s -> args_ok o ->
-  exists out c' s' mtu', run_op o c s = (out, c', s') /\ usable out /\ ready c' s' mtu' /\ sinv s'.
+  exists out c' s', run_op o c s = (out, c', s') /\ usable out /\ ready c' s' (next_mtu o mtu) /\ sinv s'.
 Proof.
   intros Hr Hs Ha.
   destruct (waits o) eqn:Hw.
@@ -1250,20 +1261,22 @@ Proof.
     rewrite (run_op_flush o c s mtu Hr Ha Hw).
     assert (Hn : cmd_not_refused o s) by (destruct o; try exact I; discriminate).
     destruct (run_op_usable o (flush c) s mtu (ready_flush _ _ _ Hr) Hs Ha Hn)
-      as (out & c' & s' & mtu' & He & Hu & Hcl & Hs').
-    exists out, c', s', mtu'. split; [exact He|]. split; [exact Hu|]. split; [now apply clean_ready|exact Hs'].
+      as (out & c' & s' & He & Hu & Hcl & Hs').
+    exists out, c', s'. split; [exact He|]. split; [exact Hu|]. split; [now apply clean_ready|exact Hs'].
   - pose proof Hr as [Hl Hq Hwq Hc Hm1 Hm2 Hm].
     destruct c as [m cm q l]. cbn in Hl, Hq, Hm1. subst l m.
-    destruct o as [m | h | h off | h | h v | h v | h v]; cbn [waits] in Hw; try discriminate; cbn [run_op args_ok] in *.
+    destruct o as [m | h | h off | h | h v | h v | h v | m]; cbn [waits] in Hw; try discriminate;
+      cbn [run_op args_ok next_mtu] in *.
     + (* set_mtu below 23: nothing is sent *)
-      exists (Ok VNone), (mkc mtu cm q false), s, mtu.
+      rewrite Hw.
+      exists (Ok VNone), (mkc mtu cm q false), s.
       unfold client_set_mtu, proclock, set_lock. cbn [c_locked c_mtu c_cmtu c_q]. rewrite Hw.
       cbn [releases]. split; [reflexivity|]. split; [exact I|]. split; [exact Hr|exact Hs].
     + (* write_command *)
       destruct Ha as [Hh Hv].
       destruct (srv_write_cmd_state s h v Hs Hv) as [Hs' Hmtu].
       exists (Ok VTrue), (deliver (mkc mtu cm q false) (snd (server_step s (QWriteCmd h v)))),
-             (fst (server_step s (QWriteCmd h v))), mtu.
+             (fst (server_step s (QWriteCmd h v))).
       split; [|split; [exact I|split; [|exact Hs']]].
       * unfold client_write_command, proclock, set_lock, xfer. cbn [c_locked c_mtu c_cmtu c_q encodable].
         rewrite fits16_N by assumption.
@@ -1274,21 +1287,28 @@ Proof.
         -- constructor; cbn [mkc c_locked c_q c_mtu]; auto. rewrite Hmtu. exact Hm2.
         -- unfold set_q, mkc. constructor; cbn [c_locked c_q c_mtu]; auto; [|rewrite Hmtu; exact Hm2].
            apply Forall_app. split; [exact Hq|]. constructor; [reflexivity|constructor].
+    + (* MTU exchange initiated by the server: the client's queue is not involved *)
+      unfold server_set_mtu. cbn [c_cmtu c_q c_locked]. rewrite fits16_nat by assumption.
+      destruct (23 <=? m) eqn:E.
+      * apply Nat.leb_le in E.
+        eexists _, _, _. split; [reflexivity|]. split; [exact I|]. destruct Hs as [S1 S2 S3 S4].
+        split; constructor; cbn; auto.
+      * eexists _, _, _. split; [reflexivity|]. split; [exact I|]. split; [exact Hr|exact Hs].
 Qed.
 
 (** FULL: any sequence of procedures with any arguments leaves the client usable *)
 Lemma run_ops_ready ops : forall c s mtu,
   ready c s mtu -> sinv s -> Forall args_ok ops ->
-  exists outs c' s' mtu', run_ops ops c s = (outs, c', s') /\ Forall usable outs
-                          /\ ready c' s' mtu' /\ sinv s'.
+  exists outs c' s', run_ops ops c s = (outs, c', s') /\ Forall usable outs
+                     /\ ready c' s' (mtu_after ops mtu) /\ sinv s'.
 Proof.
-  induction ops as [|o r IH]; intros c s mtu Hr Hs Ha; cbn [run_ops].
-  - exists [], c, s, mtu. auto.
+  induction ops as [|o r IH]; intros c s mtu Hr Hs Ha; cbn [run_ops mtu_after fold_left].
+  - exists [], c, s. auto.
   - inversion Ha as [|? ? Ha1 Ha2]; subst.
-    destruct (run_op_ready o c s mtu Hr Hs Ha1) as (out & c1 & s1 & mtu1 & He & Hu & Hr1 & Hs1).
+    destruct (run_op_ready o c s mtu Hr Hs Ha1) as (out & c1 & s1 & He & Hu & Hr1 & Hs1).
     rewrite He.
-    destruct (IH c1 s1 mtu1 Hr1 Hs1 Ha2) as (outs & c2 & s2 & mtu2 & He2 & Hu2 & Hr2 & Hs2).
-    rewrite He2. exists (out :: outs), c2, s2, mtu2. auto.
+    destruct (IH c1 s1 _ Hr1 Hs1 Ha2) as (outs & c2 & s2 & He2 & Hu2 & Hr2 & Hs2).
+    rewrite He2. exists (out :: outs), c2, s2. auto.
 Qed.
 
 (** ** decidable well-formedness *)
@@ -1593,3 +1613,66 @@ Proof.
   - split; [discriminate|]. left. exists [0; 42]%N, 10%N. repeat split; reflexivity.
   - vm_compute. repeat split; reflexivity.
 Qed.
+
+(** * MTU histories: exchanges in both directions, then transfers *)
+
+Lemma read_long_ready c s mtu h S :
+  ready c s mtu -> (h < 65536)%N -> readable_target (sdb s) h S -> (N.of_nat (length S) < 65536)%N ->
+  client_read_long (read_long_fuel s) h c s = (Ok (VBytes S), flush c, s).
+Proof.
+  intros Hr Hh Ht HS.
+  change (client_read_long (read_long_fuel s) h c s) with (run_op (OReadLong h) c s).
+  rewrite (run_op_flush (OReadLong h) c s mtu Hr Hh eq_refl). cbn [run_op].
+  apply read_long_returns_stored with (mtu := mtu); auto. now apply ready_flush.
+Qed.
+
+Lemma write_long_ready c s mtu h u old p v :
+  ready c s mtu -> value_at (sdb s) h u old p -> (N.of_nat (length v) < 65536)%N ->
+  client_write_long h v c s
+  = if writeable p || (length v =? 0)%nat
+    then (Ok VTrue, flush c, set_wq (set_db s (update (sdb s) h (AValue u (v ++ skipn (length v) old)))) [])
+    else (Raise (EAtt E_WRITE_NOT_PERMITTED), flush c, set_wq s []).
+Proof.
+  intros Hr Hva Hv. pose proof Hva as (_ & Hh & _ & _).
+  change (client_write_long h v c s) with (run_op (OWriteLong h v) c s).
+  rewrite (run_op_flush (OWriteLong h v) c s mtu Hr (conj Hh Hv) eq_refl). cbn [run_op].
+  apply write_long_result with (mtu := mtu); auto. now apply ready_flush.
+Qed.
+
+(** after ANY history -- MTU exchanges initiated by the client or by the server, in any order
+    and with any values, mixed with any procedures -- both ends use the same MTU (the value of
+    the last valid exchange), a long read returns exactly the stored value and a long write
+    stores exactly what [write_long_result] says *)
+Lemma mtu_history_exact ops c s mtu :
+  ready c s mtu -> sinv s -> Forall args_ok ops ->
+  exists outs c' s',
+    run_ops ops c s = (outs, c', s') /\ Forall usable outs
+    /\ c_mtu c' = mtu_after ops mtu /\ s_cmtu s' = mtu_after ops mtu /\ 23 <= mtu_after ops mtu
+    /\ (forall h S, (h < 65536)%N -> readable_target (sdb s') h S -> (N.of_nat (length S) < 65536)%N ->
+          client_read_long (read_long_fuel s') h c' s' = (Ok (VBytes S), flush c', s'))
+    /\ (forall h u old p v, value_at (sdb s') h u old p -> writeable p = true ->
+          (N.of_nat (length v) < 65536)%N ->
+          client_write_long h v c' s'
+          = (Ok VTrue, flush c', set_wq (set_db s' (update (sdb s') h (AValue u (v ++ skipn (length v) old)))) [])).
+Proof.
+  intros Hr Hs Ha.
+  destruct (run_ops_ready ops c s mtu Hr Hs Ha) as (outs & c' & s' & He & Hu & Hr' & Hs').
+  exists outs, c', s'. split; [exact He|]. split; [exact Hu|].
+  pose proof Hr' as [_ _ _ _ M1 M2 M3]. repeat split; auto.
+  - intros h S Hh Ht HS. now apply read_long_ready with (mtu := mtu_after ops mtu).
+  - intros h u old p v Hva Hw Hv.
+    rewrite (write_long_ready c' s' _ h u old p v Hr' Hva Hv), Hw. reflexivity.
+Qed.
+
+(** a server-initiated exchange above, equal to and below the client's value, mixed with
+    client-initiated ones: 300 bytes written long and read long at each stage *)
+Lemma mtu_history_example :
+  let v := repeat 6%N 300 in
+  let '(outs, c', s') :=
+    run_ops [OSrvMtu 100; OWrite 3 v; OReadLong 3; OSetMtu 50; OReadLong 3; OSrvMtu 50; OSrvMtu 30;
+             OWriteLong 3 v; OReadLong 3; OSetMtu 247; OSrvMtu 22; OReadLong 3]
+            client_init (server_init d_wit) in
+  nth 2 outs Blocked = Ok (VBytes v) /\ nth 4 outs Blocked = Ok (VBytes v)
+  /\ nth 8 outs Blocked = Ok (VBytes v) /\ nth 11 outs Blocked = Ok (VBytes v)
+  /\ c_mtu c' = 247 /\ s_cmtu s' = 247.
+Proof. vm_compute. repeat split; reflexivity. Qed.
